@@ -27,6 +27,11 @@ VALUES = {
     "d": "d",
     "3": 3,
     "t": "café\nline 2",
+    # falsy members of each supported type (a default or value that is tested for truthiness gets lost)
+    "0": 0,
+    "e": "",
+    "F": False,
+    "td0": timedelta(0),
 }
 CLASS_OF = {str: "TextCell", bool: "BoolCell", int: "NumberCell", float: "NumberCell", datetime: "DateCell",
             timedelta: "DurationCell", type(None): "EmptyCell"}
@@ -176,7 +181,7 @@ class Spec:
                 rt = st.ref[d][s][1][t]
                 nr, nc = rt.nr, rt.nc
                 big = nr > 50
-                vals = ["s", "i", "f", "b", "dt", "td"] if full else ["s", "i"]
+                vals = ["s", "i", "f", "b", "dt", "td", "0", "e"] if full else ["s", "0"]
                 if big:
                     pos = sorted({(0, 0), (255, 0), (256, 0), (nr - 1, nc - 1), (nr, 0)} & {(r, c) for r in range(nr + 1) for c in range(nc)})
                     vals = ["s"]
@@ -187,7 +192,7 @@ class Spec:
                     for v in vals:
                         evs.append(["write", d, s, t, r, c, v])
                 ns = [1, 2] if full else [1]
-                defaults = [None, "d", "3"] if full else [None, "d"]
+                defaults = [None, "d", "0", "e", "F"] if full else [None, "d", "0"]
                 if big:
                     ns, defaults = [1], [None]
                 for axis, size in (("row", nr), ("col", nc)):
